@@ -278,7 +278,7 @@ Proof.
   - unfold pool_add_cert. destruct (out_of_bounds p (c_slot c)); [constructor|].
     destruct (cert_duplicate _ c); [constructor|].
     destruct (add_valid_cert e _ c) as [[p1 o]|] eqn:E; [|constructor]. eapply add_valid_cert_ok, E.
-  - unfold pool_add_block. destruct (negb (fst par <? fst b)); [constructor|].
+  - unfold pool_add_block, pool_add_block_gen. destruct (negb (fst par <? fst b)); [constructor|].
     destruct (fst b <? first_unpruned p); [constructor|].
     destruct (ft_add_parent (p_ft p) b par) as [[t ev]|]; [|constructor].
     destruct (pool_handle_finalization (pool_with_ft p t) ev) as [[p1 o1]|] eqn:E1; [|constructor].
@@ -322,7 +322,7 @@ Proof. intros e p c Hp H Hd. unfold pool_step, pool_add_cert. rewrite Hp, H, Hd.
 Theorem pool_add_block_assert_iff : forall e p b par, p_panicked p = false ->
   (fst b <= fst par -> snd (fst (pool_step e p (OpBlock b par))) = RPanic).
 Proof.
-  intros e p b par Hp H. unfold pool_step, pool_add_block. rewrite Hp.
+  intros e p b par Hp H. unfold pool_step, pool_add_block, pool_add_block_gen. rewrite Hp.
   match goal with |- context [negb ?c] => replace c with false by (symmetry; apply N.ltb_ge; exact H) end. reflexivity.
 Qed.
 (* ... which no block announced by the blockstore (dissemination or repair) can do *)
